@@ -42,7 +42,12 @@ fn ranks(dag: &DAG<u32, u32>, nodes: &[Node]) -> Vec<Option<u32>> {
   nodes.iter().map(|n| all.iter().find(|(_, m)| m == n).map(|(r, _)| *r)).collect()
 }
 
-fn check_state(dag: &DAG<u32, u32>, m: &Model, nodes: &[Node]) -> Result<(), Fail> {
+fn check_state(dag: &DAG<u32, u32>, m: &Model, nodes: &[Node]) -> Result<(), Fail> { check_state_mode(dag, m, nodes, 0, 0) }
+
+/// mode 0: every query after every operation.  mode 1 ("quiet"): only the C10 state invariants, read through accessors that do not
+/// touch the graph's internal scratch space -- so whatever an operation left behind is still there for the next operation.
+/// mode 2: as mode 1 plus ONE reachability query (a different pair at every step) -- what a query leaves behind meets the next operation.
+fn check_state_mode(dag: &DAG<u32, u32>, m: &Model, nodes: &[Node], mode: u8, tick: usize) -> Result<(), Fail> {
   let k = nodes.len();
   let rk = ranks(dag, nodes);
   let live = m.present.iter().filter(|p| **p).count();
@@ -67,6 +72,12 @@ fn check_state(dag: &DAG<u32, u32>, m: &Model, nodes: &[Node]) -> Result<(), Fai
       if !(rk[a].unwrap() < rk[b].unwrap()) { fail!("C10", "C10.bounded.every_edge_increases_rank", "edge {}->{} with ranks {} !< {}", a, b, rk[a].unwrap(), rk[b].unwrap()); }
     }
   } }
+  if mode == 2 && k > 0 {
+    let (a, b) = ((tick * 7 + 3) % k, (tick * 5 + tick / k + 1) % k);
+    let r = m.present[a] && m.present[b] && a != b && m.reach(a, b);
+    if dag.contains_transitive_edge(nodes[a], nodes[b]) != r { fail!("C11", "C11.contains_transitive_edge.exact", "contains_transitive_edge({},{}) = {} expected {} (the only query after this operation)", a, b, !r, r); }
+  }
+  if mode != 0 { return Ok(()); }
   for a in 0..k {
     // adjacency, in insertion order, with data
     let out: Vec<(usize, u32)> = dag.get_outgoing_edges(nodes[a]).map(|(n, d)| (nodes.iter().position(|x| x == n).unwrap(), *d)).collect();
@@ -270,6 +281,18 @@ fn run(ops: &[Op]) -> Result<(), (usize, Fail)> {
 /// a later failure attributed to another property (an operation that panics, a wrong cycle verdict, a broken rank order) is reported
 /// as well -- at most one failure per property
 fn run_all(ops: &[Op]) -> Vec<(usize, Fail)> {
+  let mut out = run_mode(ops, 0);
+  for mode in [1u8, 2u8] {
+    for (at, mut f) in run_mode(ops, mode) {
+      if !out.iter().any(|(_, g)| g.prop == f.prop) {
+        f.what = format!("{} [{}]", f.what, if mode == 1 { "replayed with no query between the operations" } else { "replayed with a single reachability query after each operation" });
+        out.push((at, f));
+      }
+    }
+  }
+  out
+}
+fn run_mode(ops: &[Op], mode: u8) -> Vec<(usize, Fail)> {
   let mut out: Vec<(usize, Fail)> = vec![];
   let mut dag: DAG<u32, u32> = DAG::new(); let mut m = Model::default(); let mut nodes = vec![];
   for (i, op) in ops.iter().enumerate() {
@@ -279,7 +302,8 @@ fn run_all(ops: &[Op]) -> Vec<(usize, Fail)> {
     let r = std::panic::catch_unwind(std::panic::AssertUnwindSafe(|| apply(&mut dag, &mut m, &mut nodes, *op, 100 + i as u32)));
     let f = match r { Ok(Ok(())) => None, Ok(Err(f)) => Some(f), Err(e) => Some(Fail { prop: "C10", ob: "C10.bounded.operation_does_not_panic", what: format!("{:?} panicked: {}", op, panic_text(&e)) }) };
     if let Some(f) = f { if !out.iter().any(|(_, g)| g.prop == f.prop) { out.push((i, f)); } return out; }   // after a failed operation the model and the graph may differ: stop
-    let r = std::panic::catch_unwind(std::panic::AssertUnwindSafe(|| check_state(&dag, &m, &nodes)));
+    let md = if i + 1 == ops.len() { 0 } else { mode };      // the last state is always examined in full
+    let r = std::panic::catch_unwind(std::panic::AssertUnwindSafe(|| check_state_mode(&dag, &m, &nodes, md, i)));
     let f = match r { Ok(Ok(())) => None, Ok(Err(f)) => Some(f), Err(e) => Some(Fail { prop: "C11", ob: "C11.bounded.query_does_not_panic", what: format!("a query after {:?} panicked: {}", op, panic_text(&e)) }) };
     if let Some(f) = f {
       let is_c11 = f.prop == "C11";
@@ -305,6 +329,10 @@ fn fixed_sequences() -> Vec<Vec<Op>> {
   let mut s = five(); s.extend([AddEdge(0, 1), RemoveNode(4), AddNode, AddEdge(5, 0), AddEdge(3, 5), AddEdge(1, 3)]); v.push(s);
   // a rejected cycle, then the same edge again, then the reverse direction
   let mut s = five(); s.extend([AddEdge(0, 1), AddEdge(1, 2), AddEdge(2, 0), AddEdge(2, 0), AddEdge(0, 2), RemoveEdge(1, 2), AddEdge(2, 0)]); v.push(s);
+  // a rejected cycle found while a sibling of the cycle-closing child is still pending in the search; then insertions that reorder
+  // (whatever the rejected search left behind must not reach the next one)
+  let mut s = five(); s.extend([AddEdge(0, 1), AddEdge(0, 2), AddEdge(2, 0), AddEdge(1, 4), AddEdge(4, 3)]); v.push(s);
+  let mut s = five(); s.extend([AddEdge(0, 1), AddEdge(0, 2), AddEdge(2, 0), AddEdge(2, 4), AddEdge(4, 3), AddEdge(4, 2)]); v.push(s);
   v
 }
 
